@@ -47,14 +47,13 @@ def run(ctx):
         ctx.violation("harness does not build against the repository", {"correspondence": "C05", "log": getattr(ctx, "hx_log", "")[-2000:]},
                       tag="build", found_input=False)
     K.decide_standard(ctx, corrs, FINDINGS)
-    KV.prefer_decidable_mismatch(ctx, known)
     K.report_mismatch(ctx, KV.spec_violated_factory(known, ctx))
     c = corrs[0][2] if corrs else K.Corr()
-    checked, devs = (0, [])
-    if corrs and not c.err and not c.mismatch:
+    checked, devs, ostats = (0, [], {})
+    if corrs and not c.err:
         # the reference must explain every reply; only close lines attributed to a listed C05 finding,
         # and (C06 territory) request lines the model marks as deviating, are exempt
-        checked, devs = KV.run_oracle(ctx, c, "C05", known, exempt_model_marked=True)
+        checked, devs, ostats = KV.run_oracle(ctx, c, "C05", known, exempt_model_marked=True)
     if ctx.thorough:
         ok, out = K.leanchecker(ctx, ["Hv.Props.C05", "Hv.Data.Persist"])
         ctx.cov["leanchecker"] = "ok" if ok else out[-500:]
@@ -84,7 +83,7 @@ def run(ctx):
         extra_cov={"correspondence": {"domain": "C05", "cases": len(c.cases), "op_lines": len(c.ops),
                                       "mismatching_lines": len(c.mismatch), "op_histogram": c.op_hist,
                                       "closes": closes, "closes_that_changed_the_view": changed},
-                   "oracle": {"lines_checked": checked, "deviations": len(devs)}},
+                   "oracle": {"lines_evaluated": checked, "lines_not_enough_known": ostats.get("unknown", 0), "lines_total": ostats.get("lines", 0), "deviations": len(devs)}},
         trusted=["Lean 4.33.0 kernel", "axioms: propext, Classical.choice, Quot.sound", "extract/c05.go", "harness/c05.go, harness/c06.go",
                  "MODELLED (validated, not verified): encoding/gob zero omission"],
     )
